@@ -9,7 +9,9 @@ VARIABLES row, peer
 RECURSIVE Vary(_, _)
 Vary(R, k) == IF k = 0 THEN R
               ELSE Vary(R \cup UNION {UNION {{[r EXCEPT ![f] = v] : v \in Dom[f]} : f \in Fields} : r \in R}, k - 1)
-Rows == {r \in Vary({Base}, Width) : WellFormed(r)}
+\* a second base: iBGP inside a 4-byte AS (the 2-byte My-AS field of both OPENs carries AS_TRANS)
+Bases == {Base, [Base EXCEPT !.localAs = <<64086, 59905>>, !.ibgp = TRUE]}
+Rows == {r \in Vary(Bases, Width) : WellFormed(r)}
 GenInit == row \in Rows /\ peer = PeerOpenBytes(row)
 GenNext == UNCHANGED <<row, peer>>
 GenSpec == GenInit /\ [][GenNext]_<<row, peer>>
